@@ -473,7 +473,14 @@ pub fn parallel_map<T: Send, F: Fn(u64) -> T + Sync>(n: u64, jobs: usize, f: F) 
                         if i >= n {
                             break;
                         }
-                        local.push((i, f(i)));
+                        // A panic in harness code is a harness error; say where, so it can be fixed.
+                        match std::panic::catch_unwind(std::panic::AssertUnwindSafe(|| f(i))) {
+                            Ok(v) => local.push((i, v)),
+                            Err(p) => {
+                                let msg = p.downcast_ref::<String>().cloned().or_else(|| p.downcast_ref::<&str>().map(|s| (*s).to_string())).unwrap_or_default();
+                                harness_error(&format!("worker panicked outside a guarded call in item {i}: {msg}"));
+                            }
+                        }
                     }
                     local
                 })
